@@ -105,7 +105,8 @@ type c12PKI struct {
 	serverBy  []tls.Certificate // serverBy[k]: a server leaf signed by cas[k], SAN DNS origin.test + c12.example
 	clientOK  tls.Certificate   // client leaf signed by cas[0]
 	clientBad tls.Certificate   // client leaf signed by cas[1]
-	clients   []tls.Certificate // clients[j]: client leaf CN "client-j" signed by cas[0]
+	clients   []tls.Certificate // clients[j]: client leaf CN "client-j" signed by its OWN CA clientCAs[j] (j = 0..9)
+	clientCAs []*c12CA          // a server naming clientCAs[j] as acceptable selects exactly clients[j]
 }
 
 var (
@@ -131,8 +132,10 @@ func c12GetPKI() *c12PKI {
 		}
 		p.clientOK = p.cas[0].leaf("client-ok", false, nil, nil)
 		p.clientBad = p.cas[1].leaf("client-bad", false, nil, nil)
-		for j := 0; j < 4; j++ {
-			p.clients = append(p.clients, p.cas[0].leaf(fmt.Sprintf("client-%d", j), false, nil, nil))
+		for j := 0; j < 10; j++ {
+			ca := c12NewCA(fmt.Sprintf("client-ca-%d", j))
+			p.clientCAs = append(p.clientCAs, ca)
+			p.clients = append(p.clients, ca.leaf(fmt.Sprintf("client-%d", j), false, nil, nil))
 		}
 		c12pki = p
 	})
